@@ -303,6 +303,11 @@ class ResourceScenario(ScenarioData):
         if available_seconds <= 0:
             return False
 
+        # An integer in the slot table is a blocking marker (off-shift, leave), never a booking:
+        # such a slot stays closed even when part of it was set aside for a mid-slot start
+        if isinstance(self.scoreboard[sb_idx], int):
+            return False
+
         # If scoreboard shows a booking but there's available time, it's a partial slot
         # that was released - allow booking
         if self.scoreboard[sb_idx] is not None and available_seconds < self.project.attributes.get(
